@@ -28,6 +28,11 @@ pub struct Seq {
     /// keeps counting down in between (forced yields occur).
     pub budget: Option<usize>,
     pub ops: Vec<Op>,
+    /// Which of the side's three wakers the poll of operation i uses (missing entries: waker 0). A task
+    /// that is polled again with another waker (a `select!` arm probed with `now_or_never`, a future
+    /// moved to another task) must be woken through the latest one.
+    #[serde(default, skip_serializing_if = "Vec::is_empty")]
+    pub wakers: Vec<u8>,
 }
 
 /// Either `{seed, batch}` (sequences generated from the seed) or `{seqs}` (explicit).
@@ -70,7 +75,7 @@ impl ChanScenario {
         match (&self.seqs, self.seed) {
             (Some(s), _) => s[i].clone(),
             (None, Some(seed)) => gen_seq(seed, i as u64),
-            (None, None) => Seq { cap: 1, budget: None, ops: vec![] },
+            (None, None) => Seq { cap: 1, budget: None, ops: vec![], wakers: vec![] },
         }
     }
 
@@ -175,7 +180,20 @@ pub fn gen_seq(seed: u64, idx: u64) -> Seq {
             ops.push(Op::Read { n: n as usize });
         }
     }
-    Seq { cap, budget, ops }
+    // Waker identities (separate stream so that the operations of a sequence do not depend on it): half of
+    // the sequences keep one waker per side, the others switch with probability 1/3 per operation.
+    let mut wr = Rng::new(mix(seed, "chan-wakers", idx));
+    let mut wakers = vec![];
+    if wr.chance(1, 2) {
+        let mut cur = 0u8;
+        for _ in 0..ops.len() {
+            if wr.chance(1, 3) {
+                cur = wr.below(3) as u8;
+            }
+            wakers.push(cur);
+        }
+    }
+    Seq { cap, budget, ops, wakers }
 }
 
 fn single(seq: Seq) -> ChanScenario {
@@ -214,6 +232,9 @@ pub fn shrink(sc: &ChanScenario) -> Vec<ChanScenario> {
             let start = end.saturating_sub(chunk);
             let mut s = seq.clone();
             s.ops.drain(start..end);
+            if s.wakers.len() >= end {
+                s.wakers.drain(start..end);
+            }
             push(s, &mut out);
             end = start;
         }
@@ -225,6 +246,11 @@ pub fn shrink(sc: &ChanScenario) -> Vec<ChanScenario> {
     if seq.budget.is_some() {
         let mut s = seq.clone();
         s.budget = None;
+        push(s, &mut out);
+    }
+    if !seq.wakers.is_empty() {
+        let mut s = seq.clone();
+        s.wakers.clear();
         push(s, &mut out);
     }
     for i in 0..n {
